@@ -104,7 +104,8 @@ Definition audited : list audit := [
   A "eval" "quote_unquote.go" "State.evalUnquoteCalls" "indexc" 1 U "Parameters[0] after len(Parameters) == 1";
   A "eval" "stack.go" "LimitStack" "make" 1 U "make(limit+1) with limit = 10";
   A "eval" "stack.go" "LimitStack" "slice" 2 U "stack[:limit], stack[len-limit:] after len(stack) > limit";
-  A "eval" "stack.go" "State.Stack" "make" 1 U "make(depth-1) after depth > 1; depth <= MaxDepth+1 (Guards.depth_invariant)";
+  A "eval" "stack.go" "State.Stack" "make" 2 U "make(0, 10), make(0, len(frames)) / make(0, 11): constants and an existing length";
+  A "eval" "stack.go" "State.Stack" "slice" 2 U "frames[:half], frames[len-half:] after len(frames) > limit = 2*half";
   (* ---------------------------------------------------------------- lexer (front end) *)
   A "lexer" "lexer.go" "Lexer.CurrentLine" "slice" 2 FE "C08 error_line_in_bounds / C16 position invariants";
   A "lexer" "lexer.go" "Lexer.NextToken" "slice" 1 FE "input[start:] with start <= pos <= len (C16)";
@@ -245,8 +246,23 @@ Definition moved_within_file (s : string * string * string * string * Z) : bool 
   | (pkg, file, _, kind, _) => Z.leb (gen_file_kind_total pkg file kind) (aud_file_kind_total pkg file kind)
   end.
 
+(* Third chance: functions moved to another (possibly new) file of the same package - a file split, a regrouping - leave the
+   PACKAGE total of the kind unchanged.  What the audit can notice is a site that was not there when the code was reviewed;
+   with the counts kept exact, one more site of a kind anywhere in the package still makes the package total exceed the
+   reviewed total, whatever the file and function it sits in. *)
+Definition gen_pkg_kind_total (pkg kind : string) : Z :=
+  fold_left (fun acc s => match s with
+    | (p, _, _, k, n) => if String.eqb p pkg && String.eqb k kind then (acc + n)%Z else acc end) panic_sites 0%Z.
+Definition aud_pkg_kind_total (pkg kind : string) : Z :=
+  fold_left (fun acc a =>
+    if String.eqb (a_pkg a) pkg && String.eqb (a_kind a) kind then (acc + a_count a)%Z else acc) audited 0%Z.
+Definition moved_within_package (s : string * string * string * string * Z) : bool :=
+  match s with
+  | (pkg, _, _, kind, _) => Z.leb (gen_pkg_kind_total pkg kind) (aud_pkg_kind_total pkg kind)
+  end.
+
 Definition site_covered (s : string * string * string * string * Z) : bool :=
-  existsb (key_eqb s) audited || moved_within_file s.
+  existsb (key_eqb s) audited || moved_within_file s || moved_within_package s.
 
 (* no slack: the review counts exactly the sites the translator finds on the audited tree *)
 Definition audit_slack : list (string * string * string * Z * Z) :=
